@@ -1,4 +1,5 @@
 """C20 — binary interface stays compatible with released libcrypt.so.1."""
+import re
 import os, subprocess, json
 from checks.common import *
 from checks import cryptstream as CS, settings as S
@@ -6,6 +7,42 @@ from checks.cryptstream import finish_proof
 
 RELEASED_SO = "/lib/x86_64-linux-gnu/libcrypt.so.1"
 RELEASED_INC = "/usr/include"
+
+def expected_map(map_in_text, compat, vmin, vfloor):
+    """(symbol, version) pairs the version script must export, computed from libcrypt.map.in by the rules its header comment and
+    gen-libcrypt-map document: a version without tags is always available, a tagged one if COMPAT_ABI is 'yes' or equals one of its
+    tags; versions below SYMVER_MIN are dropped, versions below SYMVER_FLOOR are replaced by SYMVER_FLOOR"""
+    order, entries = [], []
+    for line in map_in_text.splitlines():
+        line = line.strip()
+        if not line or line.startswith("#"): continue
+        t = line.split()
+        if t[0] == "%chain": order += t[1:]; continue
+        sym, vers = t[0], t[1:]
+        if vers and vers[0] == "-": vers = vers[1:]
+        entries.append((sym, vers))
+    idx = {v: i for i, v in enumerate(order)}
+    out = set()
+    for sym, vers in entries:
+        for v in vers:
+            tags = v.split(":"); ver = tags.pop(0)
+            if tags and compat != "yes" and compat not in tags: continue
+            if idx[ver] < idx[vmin]: continue
+            out.add((sym, vfloor if idx[ver] < idx[vfloor] else ver))
+    return out
+
+def parse_map(text):
+    """(symbol, version) pairs of a generated linker version script"""
+    out, cur, glob = set(), None, False
+    for line in text.splitlines():
+        line = line.strip()
+        m = re.match(r"^([A-Za-z0-9_.]+) \{$", line)
+        if m: cur, glob = m.group(1), False; continue
+        if line.startswith("global:"): glob = True; continue
+        if line.startswith("local:"): glob = False; continue
+        if line.startswith("}"): cur = None; continue
+        if cur and glob and line.endswith(";"): out.add((line[:-1], cur))
+    return out
 
 def run(R):
     R.with_abi = True
@@ -61,6 +98,28 @@ def run(R):
     for s in ref["symbols"]:
         if s["sym"] + "@" + s["ver"] not in have:
             bad.append(("SYM %s@%s" % (s["sym"], s["ver"]), "symbol version exported by the released library is missing from the fresh one", ""))
+    # the version map in every compatibility configuration (the property quantifies over configurations): the tree's generator
+    # against the rules documented in libcrypt.map.in, for --enable-obsolete-api = yes / glibc / alt / owl / suse (seeded/C20b)
+    import cbuild
+    mv = cbuild.make_vars()
+    map_in = open(os.path.join(cbuild.REPO, "lib", "libcrypt.map.in")).read()
+    nmaps = 0
+    for ca in ("yes", "glibc", "alt", "owl", "suse"):
+        for vfloor in sorted({mv["SYMVER_FLOOR"], "GLIBC_2.0"}):
+            r = subprocess.run(["perl", os.path.join(cbuild.REPO, "build-aux/scripts/gen-libcrypt-map"), "SYMVER_MIN=" + mv["SYMVER_MIN"],
+                                "SYMVER_FLOOR=" + vfloor, "COMPAT_ABI=" + ca, os.path.join(cbuild.REPO, "lib/libcrypt.map.in")],
+                               text=True, capture_output=True, env=dict(os.environ, LC_ALL="C"))
+            if r.returncode != 0:
+                bad.append(("MAP COMPAT_ABI=%s SYMVER_FLOOR=%s" % (ca, vfloor), "gen-libcrypt-map fails: " + r.stderr[-200:], "")); continue
+            got, want = parse_map(r.stdout), expected_map(map_in, ca, mv["SYMVER_MIN"], vfloor)
+            nmaps += 1
+            for sym, ver in sorted(want - got):
+                bad.append(("MAP COMPAT_ABI=%s SYMVER_FLOOR=%s %s@%s" % (ca, vfloor, sym, ver),
+                            "with --enable-obsolete-api=%s the version script does not export %s@%s, which libcrypt.map.in assigns to that configuration" % (ca, sym, ver), ""))
+            for sym, ver in sorted(got - want):
+                bad.append(("MAP COMPAT_ABI=%s SYMVER_FLOOR=%s %s@%s" % (ca, vfloor, sym, ver),
+                            "with --enable-obsolete-api=%s the version script exports %s@%s, which libcrypt.map.in does not assign to that configuration" % (ca, sym, ver), ""))
+    R.cov["version_maps_checked"] = nmaps
     # compat-only names behave as their modern counterparts
     byop = dict(zip(ops, fresh))
     for m in S.METHODS:
